@@ -30,7 +30,7 @@ const OPS: [&str; 11] = [
     "lzma2_compress",
     "xz_compress",
 ];
-const FAULTS: [&str; 10] = [
+const FAULTS: [&str; 12] = [
     "sink write k fails",
     "sink flush fails",
     "source call k fails",
@@ -41,6 +41,8 @@ const FAULTS: [&str; 10] = [
     "source call k fails with UnexpectedEof / WouldBlock / InvalidData / WriteZero / TimedOut",
     "sink write k fails with WriteZero / WouldBlock / BrokenPipe / TimedOut",
     "short-writing sink that also fails at write k",
+    "sink write k returns Ok(0) once (whole-buffer, 1-byte and short-writing sinks)",
+    "sink write k returns Interrupted once",
 ];
 
 #[derive(Clone)]
@@ -57,6 +59,7 @@ struct Job {
 struct Fault {
     sink_fail_at: Option<u64>,
     sink_fail_flush: bool,
+    sink_zero_at: Option<u64>,
     sink_short: usize,
     sink_short_rng: Option<u64>,
     src_fail_at: Option<u64>,
@@ -83,6 +86,7 @@ fn exec(job: &Job, f: &Fault) -> Res {
     {
         let mut s = sink.0.borrow_mut();
         s.fail_write_at = f.sink_fail_at;
+        s.zero_at = f.sink_zero_at;
         s.fail_flush = f.sink_fail_flush;
         s.short = f.sink_short;
         s.short_rng = f.sink_short_rng;
@@ -246,7 +250,7 @@ fn fam_jobs(ctx: &CaseCtx, cov: &mut Cov) -> CaseOut {
     let judge = |out: &mut CaseOut, cov: &mut Cov, fi: usize, what: String, r: &Res, must_fail_if_fired: bool| {
         out.evals += 1;
         cov.inc("fault", fi as u32);
-        cov.add("op_x_fault", (op * 10 + fi) as u32, 1);
+        cov.add("op_x_fault", (op * 16 + fi) as u32, 1);
         out.nontrivial.push(case_hash(&[&job.input, &[op as u8, fi as u8], what.as_bytes()]));
         let prefix_ok = r.sink.len() <= good.len() && r.sink[..] == good[..r.sink.len()];
         match &r.verdict {
@@ -378,6 +382,27 @@ fn fam_jobs(ctx: &CaseCtx, cov: &mut Cov) -> CaseOut {
             judge(&mut out, cov, 9, format!("sink accepting random short counts and failing at write #{} of {}", k, p2.writes), &r, true);
         }
     }
+    // a sink that accepts nothing once (Ok(0), not an error), or is interrupted once: the call may
+    // report it (WriteZero) or carry on, but Ok still means the complete output arrived
+    {
+        for k in 1..=base.writes.min(ctx.tier.pick(150, 2000)) {
+            let r = exec(&job, &Fault { sink_zero_at: Some(k), ..Default::default() });
+            judge(&mut out, cov, 10, format!("sink write #{} of {} returning Ok(0)", k, base.writes), &r, false);
+        }
+        for k in (1..=base.writes.min(ctx.tier.pick(150, 2000))).step_by(3) {
+            let r = exec(&job, &Fault { sink_fail_at: Some(k), kind: Some(std::io::ErrorKind::Interrupted), ..Default::default() });
+            judge(&mut out, cov, 11, format!("sink write #{} of {} interrupted once", k, base.writes), &r, false);
+        }
+        for short in [1usize, 2, 3] {
+            let probe = exec(&job, &Fault { sink_short: short, ..Default::default() });
+            let n = probe.writes.min(ctx.tier.pick(150, 2000));
+            for i in 0..n {
+                let k = if probe.writes <= n { i + 1 } else { rng.range(1, probe.writes) };
+                let r = exec(&job, &Fault { sink_short: short, sink_zero_at: Some(k), ..Default::default() });
+                judge(&mut out, cov, 10, format!("sink accepting {} byte(s) per write and returning Ok(0) at write #{} of {}", short, k, probe.writes), &r, false);
+            }
+        }
+    }
     // short writes
     {
         let r = exec(&job, &Fault { sink_short: 1, ..Default::default() });
@@ -397,7 +422,7 @@ fn label(group: &str, i: u32) -> String {
     match group {
         "op" => OPS[i as usize].to_string(),
         "fault" => FAULTS[i as usize].to_string(),
-        "op_x_fault" => format!("{} | {}", OPS[(i / 10) as usize], FAULTS[(i % 10) as usize]),
+        "op_x_fault" => format!("{} | {}", OPS[(i / 16) as usize], FAULTS[(i % 16) as usize]),
         _ => std_label(group, i),
     }
 }
